@@ -17,12 +17,17 @@ CHECKS = {
     "C07": ("other", "Class-wide static FRAME obligations on the real AST (no method of Graph / node classes writes to its receiver; _shallow_copy re-creates _bound and drops memoised inputs) + bounded derivation-sequence harness with twin oracle", "static frame analysis (all paths) + bounded native oracle"),
     "C08": ("proof", "PATH obligations (path-complete symbolic execution of the loop-free lifecycle templates): every validator precedes every effect on all paths of run/map, for both runners; input-spec exactness is bounded only", "contract-based deductive verification (PATH obligations over ghost traces)"),
     "C09": ("proof", "PATH obligations on DiskCache.get/set (HMAC verified before pickle.loads on every path; payload-then-signature write order; misses otherwise), InMemoryCache.get, check_cache opt-in, restore_routing_decision frame; cache-key injectivity and run-level transparency by the bounded harness (twin nodes, corruption matrix, torn writes)", "contract-based deductive verification (PATH) + bounded native oracle"),
+    "C10": ("other", "Static FRAME/atomicity obligation on the bounded async map worker (result and index recorded together after the item completed) and PATH obligations on the sync map template; expansion order, alignment with single runs and None placeholders decided by the bounded map family (zip/product, completion orders, failing and branching items, mapping nodes)", "static atomicity analysis + PATH obligations + bounded native oracle"),
     "C11": ("proof", "PATH obligations on run templates: surfaced exception object is the cause of the internal wrapper; continue mode never raises after RunStart; FAILED values go through filter_outputs with default on_missing", "contract-based deductive verification (PATH obligations)"),
     "C12": ("proof", "PATH obligations: RunStart..exactly one RunEnd with the observed status on every terminated path of run/map templates, shutdown last and only at top level; dispatcher delivery contracts", "contract-based deductive verification (PATH obligations)"),
     "C13": ("proof", "EventDispatcher.emit/emit_async/shutdown/shutdown_async: no Exception escapes in non-strict mode, every processor visited exactly once per event, loop never left early (all paths, coroutine-accurate await model)", "contract-based deductive verification (PATH + loop-body trace obligations)"),
+    "C14": ("other", "PATH obligations on the async run template (PAUSED result built from filter_outputs of the pre-step state, no RunEnd on a pause); pause-before-dependants, pause identity through nesting and resume-equals-auto-resolve decided by the bounded interrupt family (1..3 interrupts, falsy answers, siblings in the interrupt's step)", "contract-based deductive verification (PATH) + bounded native oracle"),
+    "C15": ("other", "PATH obligation on the leaf executor (permit bracket on every path, nothing else while held), limiter-install/reset bracket of the async superstep loop, static obligations (limiter acquired nowhere else in runners/; map installs and resets the shared limiter); the numeric bound and deadlock freedom rest on assumed Semaphore/contextvars contracts and the bounded adversarial harness", "contract-based deductive verification (PATH) + static frame analysis + bounded native oracle"),
     "C16": ("other", "filter_outputs family contracts (only selected / declared names, never a sentinel, values from state) discharged by z3; scheduler scope clause bounded only", "contract-based deductive verification + bounded native oracle"),
     "C17": ("other", "wait_for freshness test, deferral, sentinel production and version-advance contracts (update_value: every emission advances the version) discharged by z3; run-level trace property bounded only", "contract-based deductive verification + bounded native oracle"),
     "C18": ("other", "copy-only-defaults / identity-of-bound-values contracts (_resolve_input, _safe_deepcopy, collect_inputs_for_node frame, initialize_state) discharged by z3; isolation of whole runs bounded only", "contract-based deductive verification + bounded native oracle"),
+    "C19": ("other", "Constructor rejection decided by the bounded flaw-injection family (every position) and the closed type-expression universe against an independent evaluator of the documented rules; no deductive obligation discharged for the validators yet", "bounded native oracle (flaw injection, type universe)"),
+    "C20": ("other", "Bounded: every expansion state x output mode (interactive view) and every Mermaid depth of generated nested graphs against a structure oracle computed from the spec; one known finding (F8) is reported as KNOWN-FINDING", "bounded native oracle (structure oracle over all expansion states)"),
 }
 PENDING = {}
 ALL = [f"C{i:02d}" for i in range(1, 21)]
